@@ -407,7 +407,33 @@ func (c Col) RandVal(r *Rng, long bool) Val {
 			mask = (uint64(1) << (8 * uint(w))) - 1
 		}
 		var n uint64
-		switch r.Intn(8) {
+		switch r.Intn(11) {
+		case 8, 9, 10:
+			// around the powers of two at which a narrower encoding stops being exact (sign bit of
+			// the 1-, 2- and 4-byte forms, their unsigned ranges) and inside the upper half of each
+			ks := []uint{7}
+			switch w {
+			case 2:
+				ks = []uint{7, 8, 15, 7}
+			case 4:
+				ks = []uint{7, 8, 15, 15, 16, 31}
+			case 8:
+				ks = []uint{7, 8, 15, 16, 31, 31, 31, 32, 63}
+			}
+			k := ks[r.Intn(len(ks))]
+			base := uint64(1) << k
+			switch r.Intn(5) {
+			case 0:
+				n = base - 1
+			case 1:
+				n = base
+			case 2:
+				n = base + 1
+			case 3:
+				n = base + r.U64()%base // upper half of the next width: [2^k, 2^(k+1))
+			default:
+				n = ^base + 1 // -2^k
+			}
 		case 0:
 			n = 0
 		case 1:
